@@ -54,11 +54,13 @@ BODIES = {
     "loopn": (["a", "b"], [("for", "k", "0", "b", [("raw", ".db k")]), ("raw", ".dl a")]),
     "assign": (["a", "b"], [("raw", "x := b + 1"), ("raw", ".db x"), ("raw", ".dl a")]),
 }
-EARLY_ARGS = {"zero": ("expr", "0"), "lit": ("expr", "2"), "assigned": ("expr", "kc"), "assigned-expr": ("expr", "kc - 3")}
+EARLY_ARGS = {"zero": ("expr", "0"), "lit": ("expr", "2"), "assigned": ("expr", "kc"), "assigned-expr": ("expr", "kc - 3"),
+              # names whose value at the call site is 0 / -1 (as opposed to the literal)
+              "assigned-zero": ("expr", "kz"), "assigned-zero-expr": ("expr", "kz + 2"), "assigned-minus-one": ("expr", "kn + 2")}
 
 
 def prelude():
-    return [("raw", "*= p"), ("raw", "kc := 3"), ("raw", "k0 = V0"), ("raw", "k1 = V1"), ("raw", "a = V2"), ("raw", "b = V3"), ("raw", "back:"), ("raw", ".db 0xEE")]
+    return [("raw", "*= p"), ("raw", "kc := 3"), ("raw", "kz := 0"), ("raw", "kn := 0 - 1"), ("raw", "k0 = V0"), ("raw", "k1 = V1"), ("raw", "a = V2"), ("raw", "b = V3"), ("raw", "back:"), ("raw", ".db 0xEE")]
 
 
 def postlude():
@@ -95,7 +97,7 @@ def programs(tier):
         params, b = BODIES[body]
         for k1 in ("lit", "const", "back", "fwd", "pname"):
             for k2, a2 in EARLY_ARGS.items():
-                prog = prelude() + [("macrodef", "m", params, b), ("call", "m", [ARGS[k1], a2]), ("raw", "kc := 9"), ("call", "m", [ARGS["lit"], a2])] + postlude()
+                prog = prelude() + [("macrodef", "m", params, b), ("call", "m", [ARGS[k1], a2]), ("raw", "kc := 9"), ("raw", "kz := 5"), ("raw", "kn := 6"), ("call", "m", [ARGS["lit"], a2])] + postlude()
                 out.append((f"{body}/{k1}-{k2}", prog))
     # nested calls
     for k in kinds:
